@@ -66,6 +66,8 @@ type gen struct {
 	allowTry bool // filler: try statements that complete (a caught error, a finally that ran)
 	tries    int
 	noA      bool // the variable `a` is not declared (first statement of a module)
+	consts   map[string]bool // files whose preamble declares the constants KI / KS
+	curFile  string
 }
 
 func (g *gen) id(p string) string {
@@ -82,6 +84,10 @@ func (g *gen) pick(label string, n int) int {
 
 // fold returns a constant expression the optimizer replaces by a literal.
 func (g *gen) fold() string {
+	if g.consts[g.curFile] && g.pick("fold-const", 3) == 0 {
+		// a constant identifier substituted by its literal at compile time
+		return []string{"KI", "(KI + 1)", `(KS + "x")`, "(KI > 1)", "len(KS)"}[g.pick("foldc", 5)]
+	}
 	return []string{"(1+2)", `("x" + "y")`, "(2 > 1)", "(1.5 + 1.5)", `len("abc")`, "(!false)", "(2 * 3 - 1)", `string(12)`, "('a' + 1)"}[g.pick("fold", 9)]
 }
 
@@ -306,7 +312,7 @@ func (g *gen) emitCall(b *fileB, ind int, callee string, inMain bool, form *stri
 
 var failKinds = []string{"throw-string", "throw-error", "throw-typed", "throw-var", "div-zero", "bad-operand",
 	"builtin-int", "builtin-append", "argc-few", "argc-many", "not-callable", "index-oob", "not-indexable",
-	"slice-oob", "not-iterable", "throw-folded"}
+	"slice-oob", "not-iterable", "throw-folded", "const-div-zero", "const-bad-operand", "const-index"}
 
 func (g *gen) emitFail(b *fileB, ind int, kind *string) []expFrame {
 	k := g.pick("failkind", len(failKinds))
@@ -316,9 +322,27 @@ func (g *gen) emitFail(b *fileB, ind int, kind *string) []expFrame {
 			k = 0
 		}
 	}
+	if !g.consts[b.name] {
+		switch failKinds[k] {
+		case "const-div-zero", "const-bad-operand", "const-index":
+			k = 4 // div-zero
+		}
+	}
 	*kind = failKinds[k]
 	one := func(l int) []expFrame { return []expFrame{{File: b.name, Lo: l, Hi: l}} }
 	switch failKinds[k] {
+	case "const-div-zero": // the constant identifier is the LEFT operand (the expression takes its position from it)
+		z := g.id("z")
+		b.add(ind, z+" := 0")
+		return one(b.add(ind, g.id("y")+" := KI / "+z))
+	case "const-bad-operand":
+		z := g.id("z")
+		b.add(ind, z+" := 1")
+		return one(b.add(ind, g.id("y")+" := KS - "+z))
+	case "const-index":
+		z := g.id("z")
+		b.add(ind, z+" := 9")
+		return one(b.add(ind, g.id("y")+" := KS["+z+"]"))
 	case "throw-string":
 		return one(b.add(ind, `throw "boom"`))
 	case "throw-error":
@@ -428,6 +452,7 @@ func generate(rt *rapid.T, allowCB, allowTry bool) *scen {
 	var expTop []expFrame // module top level (import-chain)
 	var formTop string
 	next := func(b *fileB, ind, s int, form *string) []expFrame {
+		g.curFile = b.name
 		callerMain := b == mainB
 		if s == depth {
 			return g.emitFail(b, ind, &sc.Fail)
@@ -455,6 +480,13 @@ func generate(rt *rapid.T, allowCB, allowTry bool) *scen {
 	}
 
 	// preambles
+	g.consts = map[string]bool{}
+	if g.pick("main-consts", 2) == 1 {
+		g.consts[mainName] = true
+		mainB.add(0, "const KI = 10")
+		mainB.add(0, `const KS = "k"`)
+	}
+	g.curFile = mainName
 	mainB.add(0, "a := 1")
 	if allowCB {
 		g.filler(mainB, 0, 1)
@@ -467,6 +499,10 @@ func generate(rt *rapid.T, allowCB, allowTry bool) *scen {
 		mainB.add(0, `m := import("m")`)
 	}
 	if useMod && !bareTop {
+		if g.pick("mod-consts", 2) == 1 {
+			g.consts[modName] = true
+			modB.add(0, "const (KI = 10; KS = \"k\")")
+		}
 		modB.add(0, "a := 1")
 		g.filler(modB, 0, 3)
 		if importAt < 0 {
